@@ -72,6 +72,29 @@ def tree_hash(root, extra_files=()):
     return h.hexdigest()
 
 
+def _save_deps_template(target_dir, tpl, crate_name):
+    """copy a finished target directory to `tpl`, minus everything that belongs to the crate itself"""
+    import glob
+    os.makedirs(os.path.dirname(tpl), exist_ok=True)
+    with open(os.path.join(os.path.dirname(tpl), ".lock-" + os.path.basename(tpl)), "w") as lock:
+        fcntl.flock(lock, fcntl.LOCK_EX)
+        if os.path.exists(os.path.join(tpl, ".ready")):
+            return
+        part = tpl + ".part"
+        shutil.rmtree(part, ignore_errors=True)
+        shutil.copytree(target_dir, part, symlinks=True)
+        for pat in ("*/.fingerprint/%s-*" % crate_name, "*/deps/%s-*" % crate_name, "*/deps/lib%s-*" % crate_name, "*/incremental",
+                    "*/build/%s-*" % crate_name, "*/lib%s*" % crate_name, "*/%s.d" % crate_name):
+            for f in glob.glob(os.path.join(part, pat)):
+                if os.path.isdir(f):
+                    shutil.rmtree(f, ignore_errors=True)
+                else:
+                    os.remove(f)
+        shutil.rmtree(tpl, ignore_errors=True)
+        os.rename(part, tpl)
+        open(os.path.join(tpl, ".ready"), "w").close()
+
+
 def export_facts(crate_dir, crate_name, profile, label):
     """run the driver over `crate_dir`; returns the path of the cached fact file"""
     ensure_driver()
@@ -103,6 +126,14 @@ def export_facts(crate_dir, crate_name, profile, label):
                 "FACTS_CRATES": crate_name,
             })
             env.pop("RUSTC_WRAPPER", None)
+            # The corpus runner exports facts for hundreds of scratch copies that share their dependencies: it names a directory (outside
+            # /repo and /verif, removed when it ends) in which the first export leaves its target directory *without the artefacts of the
+            # crate itself*; later exports start from a copy of it, so only the crate is compiled (by the driver, always: its fingerprints
+            # are not in the template, and a missing fact file fails the export).
+            tpl_root = os.environ.get("VERIF_DEPS_TEMPLATE") if crate_name == "discv5" else None
+            tpl = os.path.join(tpl_root, profile) if tpl_root else None
+            if tpl and os.path.exists(os.path.join(tpl, ".ready")):
+                subprocess.run(["cp", "-a", tpl + "/.", os.path.join(tmp, "target") + "/"], check=False)
             cmd = "cargo +nightly check --offline --lib" + (" --release" if profile == "release" else "")
             r = subprocess.run(cmd, shell=True, cwd=snap, env=env, stdout=subprocess.PIPE,
                                stderr=subprocess.STDOUT, text=True)
@@ -111,6 +142,8 @@ def export_facts(crate_dir, crate_name, profile, label):
                 sys.stderr.write(r.stdout[-6000:])
                 raise RuntimeError("fact export failed for %s (%s): rc=%s files=%s" % (
                     crate_dir, profile, r.returncode, produced))
+            if tpl and not os.path.exists(os.path.join(tpl, ".ready")):
+                _save_deps_template(os.path.join(tmp, "target"), tpl, crate_name)
             shutil.move(os.path.join(facts_out, produced[0]), target + ".tmp")
             os.replace(target + ".tmp", target)
     finally:
@@ -397,7 +430,7 @@ def run_detector_selftest(pid):
     os.close(fd)
     try:
         jobs = str(max(2, min(10, (os.cpu_count() or 4) - 4)))
-        p = subprocess.run([sys.executable, os.path.join(VERIF, "tools", "run_mutants.py"), "--as-prop", pid, "--jobs", jobs, "--json", path],
+        p = subprocess.run([sys.executable, os.path.join(VERIF, "tools", "run_mutants.py"), "--as-prop", pid, "--relevant-benign", "--jobs", jobs, "--json", path],
                            stdout=subprocess.PIPE, stderr=subprocess.STDOUT, text=True)
         try:
             with open(path) as f:
@@ -414,7 +447,8 @@ def run_detector_selftest(pid):
     ben = [r for r in res if r.get("expect") == "none"]
     return {
         "what": "each patch of mutants/ for this property is applied to a scratch copy of the current tree (outside /repo and /verif, removed afterwards), "
-                "facts are re-exported and this property's quick check must report the expected rule; each benign refactoring must leave it silent",
+                "facts are re-exported and this property's quick check must report the expected rule; each benign refactoring that touches a module "
+                "this check analyses must leave it silent (all 20 checks on every benign refactoring: tools/run_mutants.py, DESIGN 7.4)",
         "mutants": len(muts), "caught": sum(r["status"] == "caught" for r in muts), "caught_by_other_rule": sum(r["status"] == "caught-by-other-rule" for r in muts),
         "missed": [r["mutant"] for r in muts if r["status"] == "MISSED"], "skipped": [r["mutant"] for r in muts if r["status"].startswith("skipped")],
         "benign": len(ben), "benign_silent": sum(r["status"] == "silent" for r in ben), "false_alarms": [r["mutant"] for r in ben if r["status"] == "FALSE-ALARM"],
